@@ -366,6 +366,9 @@ impl Sim {
             ev.step, ev.op, ev.task, ev.call.name(), p1, p2, ev.len, ev.off, ev.err, ev.fault
         );
         self.log_hash.update(line.as_bytes());
+        if trace_enabled() {
+            eprint!("TRACE {line}");
+        }
         let site = format!("{}:{}", ev.call.name(), role_of(&ev.path));
         *self.site_counts.entry(site).or_insert(0) += 1;
         self.mon.on_event(&self.disk, &ev);
@@ -694,4 +697,10 @@ impl Sim {
     pub fn log_digest(&self) -> String {
         self.log_hash.finalize().to_hex().to_string()
     }
+}
+
+/// CASIM_TRACE=1 prints the canonical event log to stderr (debugging aid; never affects a run)
+pub fn trace_enabled() -> bool {
+    static ON: std::sync::OnceLock<bool> = std::sync::OnceLock::new();
+    *ON.get_or_init(|| std::env::var("CASIM_TRACE").is_ok())
 }
